@@ -48,6 +48,44 @@ type tnode struct {
 	closed   bool // we asked for it (or an ancestor) to be closed
 	evclosed bool
 	ft       *kv.Term // the filter last given to this node (nil: none yet / a plain node)
+	live     *liveReader
+}
+
+// liveReader: a consumer that reads its events as they come, at its own (sometimes slow) pace, instead of being
+// drained at the quiescent points: reads overlap with publications
+type liveReader struct {
+	mu     sync.Mutex
+	parts  []string
+	closed bool
+}
+
+func (w *treeWorld) startLive(n *tnode) {
+	lr := &liveReader{}
+	n.live = lr
+	ch := n.events
+	id := uint64(n.id)
+	go func() {
+		var k uint64
+		for e := range ch {
+			lr.mu.Lock()
+			lr.parts = append(lr.parts, kv.L(string(e.Type()), kv.Describe(e.Resource()).Sx()))
+			lr.mu.Unlock()
+			k++
+			atomic.AddUint64(&w.hookN, 1)
+			h := (k + id*1000003) * 0x9E3779B97F4A7C15
+			h ^= h >> 29
+			switch {
+			case h%16 == 0:
+				// falls behind for a while, then catches up in a hurry
+				time.Sleep(time.Duration(1+h%3000) * time.Microsecond)
+			case h%3 == 0:
+				time.Sleep(time.Duration(1+h%200) * time.Microsecond)
+			}
+		}
+		lr.mu.Lock()
+		lr.closed = true
+		lr.mu.Unlock()
+	}()
 }
 
 type treeWorld struct {
@@ -62,6 +100,7 @@ type treeWorld struct {
 	longPause bool
 	asleep    atomic.Int32 // goroutines of the library inside a long pause right now (that is not quiescence)
 	pauseNext atomic.Bool  // the next log call of a publisher takes 120 ms
+	maxNodes  int
 	mode      string
 	hookN     uint64
 }
@@ -89,6 +128,10 @@ func treeFilters() []kv.Term {
 		// the same full id, with and without a namespace-wide entry next to it
 		{Op: "nsname", IDs: [][2]string{{"a", "x"}}},
 		{Op: "nsname", IDs: [][2]string{{"a", "x"}, {"b", ""}}},
+		// no requirement at all, three ways: match nothing, and match everything twice
+		{Op: "sel", Sel: "nothing"},
+		{Op: "sel", Sel: "everything-nil"},
+		{Op: "sel", Sel: "everything"},
 	}
 }
 
@@ -166,7 +209,7 @@ func (w *treeWorld) publishers() []*tnode {
 
 func (w *treeWorld) attach(kinds []string) {
 	ps := w.publishers()
-	if len(ps) == 0 || len(w.nodes) >= 9 {
+	if len(ps) == 0 || len(w.nodes) >= w.maxNodes {
 		return
 	}
 	w.attachAs(kv.Pick(w.r, ps), kv.Pick(w.r, kinds), kv.Pick(w.r, treeFilters()))
@@ -249,6 +292,9 @@ func (w *treeWorld) attachAs(p *tnode, kind string, ft kv.Term) {
 	}
 	if kind == "subf" || kind == "clonef" {
 		n.ft = &ft
+	}
+	if kind == "sub" && (w.mode == "step" || w.mode == "burst") && w.perturb && w.r.Chance(1, 3) {
+		w.startLive(n)
 	}
 	w.nodes = append(w.nodes, n)
 	w.tr.line(kv.L("attach", fmt.Sprint(n.id), fmt.Sprint(p.id), kind, fsx))
@@ -378,7 +424,7 @@ func (w *treeWorld) topup() {
 // subscribes, and more changes follow at once: they are published after Subscribe returned
 func (w *treeWorld) pausedAttach() {
 	ps := w.publishers()
-	if len(ps) == 0 || len(w.nodes) >= 9 {
+	if len(ps) == 0 || len(w.nodes) >= w.maxNodes {
 		return
 	}
 	w.tr.line(kv.L("burst-begin"))
@@ -396,7 +442,7 @@ func (w *treeWorld) pausedAttach() {
 // lateMonitor: an object leaves a filtered publisher's view (an update its filter rejects), nothing else happens,
 // and only then a monitor is attached below: its OnInitialize must not list the object any more
 func (w *treeWorld) lateMonitor() {
-	if len(w.nodes) >= 9 {
+	if len(w.nodes) >= w.maxNodes {
 		return
 	}
 	type cand struct {
@@ -432,6 +478,49 @@ func (w *treeWorld) lateMonitor() {
 	w.wait() // quiescence, but nobody looks at anything
 	w.attachAs(c.n, "mon", kv.Term{Op: "null"})
 	w.tr.stats["act:late-monitor"]++
+}
+
+// readDuringRefilter: at a quiescent point a reader hammers a filtered node's Cache().List() while the node is
+// refiltered: every answer must be the complete content before or the complete content after (a Refilter is one
+// atomic step for readers), never something in between
+func (w *treeWorld) readDuringRefilter() {
+	var cs []*tnode
+	for _, n := range w.nodes {
+		if n.refil != nil && !n.closed && isClosed(n.ready) && !isClosed(n.done) {
+			cs = append(cs, n)
+		}
+	}
+	if len(cs) == 0 {
+		return
+	}
+	n := kv.Pick(w.r, cs)
+	before := cacheSx(n.cache)
+	var stop atomic.Bool
+	seen := map[string]bool{}
+	donech := make(chan struct{})
+	go func() {
+		defer close(donech)
+		for i := 0; i < 20000 && !stop.Load(); i++ {
+			seen[cacheSx(n.cache)] = true
+		}
+	}()
+	w.refilterAs(n, kv.Pick(w.r, treeFilters()))
+	w.wait()
+	stop.Store(true)
+	<-donech
+	after := cacheSx(n.cache)
+	bad := ""
+	for s := range seen {
+		if s != before && s != after {
+			bad = s
+		}
+	}
+	if bad != "" {
+		w.tr.line(kv.L("refread", fmt.Sprint(n.id), "bad", before, after, bad))
+	} else {
+		w.tr.line(kv.L("refread", fmt.Sprint(n.id), "ok", before, after, "none"))
+	}
+	w.tr.stats["act:read-during-refilter"]++
 }
 
 // flood: up to EventBufsiz/4 server events without waiting in between
@@ -496,7 +585,7 @@ func (w *treeWorld) refilter() {
 // (a no-op by C07) — while its parent's readiness may not have been noticed yet
 func (w *treeWorld) attachRefilterEqual() {
 	ps := w.publishers()
-	if len(ps) == 0 || len(w.nodes) >= 9 {
+	if len(ps) == 0 || len(w.nodes) >= w.maxNodes {
 		return
 	}
 	ft := kv.Pick(w.r, treeFilters())
@@ -615,7 +704,13 @@ func (w *treeWorld) observe() {
 		evs := "none"
 		if n.events != nil {
 			evs = "stalled"
-			if !n.stalled {
+			if n.live != nil {
+				n.live.mu.Lock()
+				evs = kv.L(n.live.parts...)
+				n.live.parts = nil
+				n.evclosed = n.live.closed
+				n.live.mu.Unlock()
+			} else if !n.stalled {
 				var parts []string
 			drain:
 				for {
@@ -739,7 +834,7 @@ func (w *treeWorld) step(f func()) {
 		// every healthy leaf must already hold whatever this step delivers to it
 		synctest.Wait()
 		for _, n := range w.nodes {
-			if n.events != nil && !n.stalled && !n.closed {
+			if n.events != nil && !n.stalled && !n.closed && n.live == nil {
 				w.tr.line(kv.L("instant", fmt.Sprint(n.id), fmt.Sprint(len(n.events))))
 			}
 		}
@@ -759,6 +854,7 @@ func runTreeScenario(t *testing.T, tr *tracer, idx int, seed uint64, mode string
 		mode = modes[r.Intn(len(modes))]
 		w := &treeWorld{tr: tr, r: r, srv: kv.NewServer(), perturb: r.Chance(2, 3), mode: mode}
 		w.longPause = w.perturb && (mode == "step" || mode == "burst") && r.Chance(1, 5)
+		w.maxNodes = 9
 		if r.Chance(1, 8) {
 			// a long-lived cluster: resource versions beyond 32 bits
 			w.srv.StartAt(1<<31 + r.Intn(1000))
@@ -827,12 +923,43 @@ func runTreeScenario(t *testing.T, tr *tracer, idx int, seed uint64, mode string
 						n.closed = true
 					}
 				})
+			} else if (mode == "step" || mode == "burst") && r.Chance(1, 2) {
+				// (not with stalled consumers: what such a node received is compared only when it is released, long after
+				// the round in which event-or-content was the schedule's choice)
+				// the first list completes and changes follow in the same instant: nodes with a Refilter waiting for
+				// the parent's readiness see the readiness and the first events together
+				w.step(func() {
+					tr.line(kv.L("burst-begin"))
+					tr.line(kv.L("release"))
+					w.srv.Freeze() // the list answers with the state of this instant: what follows comes by the watch
+					close(w.srv.ListGate)
+					for j := inflight(1 + r.Intn(3)); j > 0; j-- {
+						w.srvEvent()
+					}
+					tr.line(kv.L("burst-end"))
+				})
 			} else {
 				w.step(func() {
 					tr.line(kv.L("release"))
 					close(w.srv.ListGate)
 				})
 			}
+		}
+		if (mode == "step" || mode == "burst") && !w.nodes[0].closed && r.Chance(1, 10) {
+			// a wide publisher: many subscriptions on one node (the root or a clone of it)
+			w.maxNodes = 16
+			p := w.nodes[0]
+			if r.Chance(1, 2) {
+				before := len(w.nodes)
+				w.step(func() { w.attachAs(w.nodes[0], "clone", kv.Term{Op: "null"}) })
+				if len(w.nodes) > before {
+					p = w.nodes[len(w.nodes)-1]
+				}
+			}
+			for i := 8 + r.Intn(3); i > 0; i-- {
+				w.step(func() { w.attachAs(p, "sub", kv.Term{Op: "null"}) })
+			}
+			w.tr.stats["act:wide"]++
 		}
 		steps := 8 + r.Intn(14)
 		if mode == "c12" {
@@ -916,6 +1043,8 @@ func runTreeScenario(t *testing.T, tr *tracer, idx int, seed uint64, mode string
 			switch x := r.Intn(100); {
 			case x < 3 && mode == "step":
 				w.step(w.lateMonitor)
+			case x < 8 && mode == "step":
+				w.step(w.readDuringRefilter)
 			case x < 38:
 				w.step(w.srvEvent)
 			case x < 62:
